@@ -209,6 +209,8 @@ SetDelAll(s, c, vs) ==
 OutsGo(w, e) ==
     LET a == e.args  o == w[e.self] IN
     CASE e.k = "GoArray" /\ e.m = "New"    -> {New(w, MkSeq("GoArray", a[1]))}
+      [] e.k = "GoArray" /\ e.m = "NewNil" -> {New(w, MkSeq("GoArray", <<>>))}    \* the nil slice is an empty array
+      [] e.k = "GoMap"   /\ e.m = "NewNil" -> {New(w, MkMap("GoMap", <<>>))}      \* the nil map is an empty map
       [] e.k = "GoArray" /\ e.m = "Poke"   -> {Ret(None, Upd(w, e.self, With(o, [o.s EXCEPT ![a[1]] = a[2]])))}
       [] e.k = "GoMap"   /\ e.m = "New"    -> {New(w, MkMap("GoMap", MapOf(a[1])))}
       [] e.k = "GoMap"   /\ e.m = "Poke"   -> {Ret(None, Upd(w, e.self, With(o, MapPut(o.s, a[1], a[2]))))}
